@@ -7,7 +7,7 @@
 
 use crate::framework::{Check, Failure, RunReport, Tier};
 use crate::host::{Driver, GcSched, Inject, Outcome, run_solo, run_solo_hint};
-use crate::proggen::{GenCfg, HoleVariant};
+use crate::proggen::{GenCfg, HoleVariant, Node};
 use crate::progscn::{ProgCase, random_gc};
 use crate::rng::{Rng, Tape};
 use serde::{Deserialize, Serialize};
@@ -87,6 +87,24 @@ impl Check for C02 {
         let mut case = ProgCase::generate(rng, cfg, variant, "v");
         if rng.chance(0.3) {
             case.module_path = Some("/p/main.ts".into());
+        }
+        if rng.chance(0.3) {
+            // a value exported by expression has no binding: only the export table holds it
+            // while the rest of the program allocates (script and module mode)
+            let at = 3.min(case.tree.kids.len());
+            case.tree.kids.insert(at, Node::leaf(format!("export default {{ dflt: {}, l: [{{ m: 1 }}] }};", rng.below(100))));
+        }
+        if case.module_path.is_some() && rng.chance(0.4) {
+            // ... and the same inside a host-provided dependency, read back by the importer
+            case.modules.insert(
+                "/p/dep.ts".into(),
+                "export default { a: 41, l: [{ b: 1 }] };\nexport const made: any = [{ c: 2 }].map((o: any) => ({ d: o.c }));\nconst junk: any[] = []; for (let i = 0; i < 24; i++) { junk.push({ i: i, s: \"x\" + i }); }\nexport const n: number = junk.length;".into(),
+            );
+            if let Some(first) = case.tree.kids.first_mut() {
+                first.pre = format!("import __dflt, {{ n as __dn, made as __dmade }} from \"./dep.ts\";\n{}", first.pre);
+            }
+            let at = 3.min(case.tree.kids.len());
+            case.tree.kids.insert(at, Node::leaf("__log.push(\"dep:\" + JSON.stringify(__dflt) + __dn + JSON.stringify(__dmade));"));
         }
         let n = 4 + rng.below(5);
         let schedules = (0..n).map(|_| random_gc(rng)).collect();
